@@ -5,6 +5,7 @@ use crate::{
         TryFromNode,
         field::{as_field_name, rename_keywords, resolve_type},
         rust_str,
+        structures::xml_name_to_rust_name,
     },
     reader::WriteXml,
 };
@@ -65,7 +66,13 @@ where
 {
     fn write_xml(&self, writer: &mut W) -> WriterResult<()> {
         // create a wrapping Rust struct for the service, named after it
-        let name = rename_keywords(&self.name);
+        let is_identifier = self.name.chars().all(|c| c.is_alphanumeric() || c == '_')
+            && self.name.chars().next().is_some_and(|c| !c.is_numeric());
+        let name = if is_identifier {
+            rename_keywords(&self.name).to_string()
+        } else {
+            xml_name_to_rust_name(&self.name)
+        };
         writeln!(writer, "pub struct {name} {{")?;
         writeln!(writer, "    pub client: reqwest::Client,")?;
         writeln!(writer, "    pub location: String,")?;
@@ -106,11 +113,13 @@ where
 {
     // generate an async fn for the operation
     let rust_fn_name = as_field_name(operation_name);
-    let request_name = format!("{operation_name}InputEnvelope");
+    // the envelope types are named by the binding writer: PascalCase of the operation name
+    let type_name = xml_name_to_rust_name(operation_name);
+    let request_name = format!("{type_name}InputEnvelope");
     let response_name = operation
         .output
         .as_ref()
-        .map(|_| format!("{operation_name}OutputEnvelope"));
+        .map(|_| format!("{type_name}OutputEnvelope"));
 
     if let Some(res_name) = response_name {
         writeln!(
